@@ -23,6 +23,13 @@ UNKNOWN = ["foo", "none@example.org", "aes128-ctr ", "x" * 70, "sntrup761x25519-
            "chacha20-poly1305@openssh.com", "umac-64@openssh.com", "ssh-dss", "zlib@example", "-", "~", "EXT-INFO-C",
            "curve25519-sha256", "ext_info_c", "élève"]
 CERT = "-cert-v01@openssh.com"
+# names SecurityOptions must refuse; also offered by hostile peers (all are members of UNKNOWN or plausible peers' lists)
+REFUSED_POOL = ["foo", "sntrup761x25519-sha512@openssh.com", "chacha20-poly1305@openssh.com", "umac-64@openssh.com",
+                "ssh-dss", "zlib@example", "curve25519-sha256"]
+SETTER = {"kex": "kex", "keys": "key_types", "ciphers": "ciphers", "macs": "digests", "compression": "compression"}
+PREF_ATTR = {"kex": "_preferred_kex", "keys": "_preferred_keys", "ciphers": "_preferred_ciphers",
+             "macs": "_preferred_macs", "compression": "_preferred_compression"}
+INFO = {}  # category -> table keys of the tree under test (filled by run)
 
 
 def is_marker(n):
@@ -59,6 +66,7 @@ class Side:
         self.agreed_strict = False
         self.initial_done = False
         self.monkey_kex = None  # _preferred_kex assigned directly (may hold unknown names)
+        self.refused = []  # [(category, tuple)] assignments that SecurityOptions must refuse (ValueError, caught)
 
     def tokens(self, T, pref_kex=None):
         d = {"kex": T._preferred_kex, "keys": T._preferred_keys, "ciphers": T._preferred_ciphers,
@@ -77,7 +85,20 @@ class Side:
     def describe(self):
         return {"server": self.server, "pref": {c: v for c, v in self.pref.items() if v is not None},
                 "disabled": self.dis, "server_keys": self.server_keys, "moduli": self.moduli, "strict": self.strict,
-                "monkey_kex": self.monkey_kex}
+                "monkey_kex": self.monkey_kex, "refused_assignments": self.refused}
+
+    def current(self, T, c):
+        d = {"kex": T._preferred_kex, "keys": T._preferred_keys, "ciphers": T._preferred_ciphers,
+             "macs": T._preferred_macs, "compression": T._preferred_compression}
+        return list(self.pref[c] if self.pref[c] is not None else d[c])
+
+    def add_refused(self, rng, T, c, bogus):
+        x = self.current(T, c)
+        x.insert(0 if rng.random() < 0.7 else rng.randrange(len(x) + 1), bogus)
+        self.refused.append((c, x))
+
+    def refused_names(self, c):
+        return {n for cc, x in self.refused if cc == c for n in x if n not in INFO.get(c, ())}
 
 
 def rand_subset(rng, names, keep_prob):
@@ -142,6 +163,9 @@ def gen_side(rng, T, server, hostkeys):
     if rng.random() < 0.02:
         s.monkey_kex = list(s.pref["kex"] if s.pref["kex"] is not None else T._preferred_kex)
         s.monkey_kex.insert(rng.randrange(len(s.monkey_kex) + 1), rng.choice(UNKNOWN[:4]))
+    elif rng.random() < 0.2:  # "try an optional algorithm, catch ValueError, carry on"
+        for _ in range(rng.choice([1, 1, 2])):
+            s.add_refused(rng, T, rng.choice(CATS), rng.choice(REFUSED_POOL))
     return s
 
 
@@ -164,6 +188,13 @@ def build_real(paramiko, s, hostkeys, sock=None, pack=None):
         opts.compression = tuple(s.pref["compression"])
     if s.monkey_kex is not None:
         t._preferred_kex = tuple(s.monkey_kex)
+    t._pv_refusal_missing = []
+    for c, x in s.refused:
+        try:
+            setattr(opts, SETTER[c], tuple(x))
+        except ValueError:
+            continue
+        t._pv_refusal_missing.append((c, x))
     if s.server:
         for k in s._real_keys:
             t.add_server_key(hostkeys[k])
@@ -367,8 +398,24 @@ def oracle_one(ctx, case, role_server, side, res, spec, own_lists):
     if res[0] == "raise":
         ctx.fail("negotiation-raises:" + res[1], case, res[2])
         return
+    if res[0] == "err" and res[1] == "keyError" and side.monkey_kex is None:
+        ctx.fail("kex-outside-table-agreed" + (":refused-name" if side.refused_names("kex") else ""), case,
+                 "%s: the agreed kex is not a key of _kex_info (KeyError) although its preferences were only ever set "
+                 "through SecurityOptions; refused: %r" % (role, sorted(side.refused_names("kex"))))
+        return
     if res[0] == "err" and res[1] in ("messageOrder", "keyError"):
         return  # strict-kex ordering is C09's subject; keyError only with monkeypatched tables
+    if side.monkey_kex is None:  # nothing outside the tables (or refused by SecurityOptions) is ever offered
+        for i in range(8):
+            table = INFO[CAT_OF[i]]
+            for n in own_lists[i]:
+                ok = n in table or (i == 0 and is_marker(n)) or \
+                    (i == 1 and n.endswith(CERT) and n[:-len(CERT)] in table)
+                if not ok:
+                    sig = "refused-name-advertised:" if n in side.refused_names(CAT_OF[i]) else \
+                        "name-outside-table-advertised:"
+                    ctx.fail(sig + CAT_OF[i], case, "%s advertises %r" % (role, n))
+                    break
     want_fail = any(x is None for x in spec)
     if res[0] == "err":
         if not want_fail:
@@ -391,6 +438,11 @@ def oracle_one(ctx, case, role_server, side, res, spec, own_lists):
                      case, "%s selected %r which its disabled_algorithms[%r] lists" % (role, view[i], CAT_OF[i]))
         if is_marker(view[i]):
             ctx.fail("marker-selected:" + LABEL[i], case, "%s selected pseudo-algorithm %r" % (role, view[i]))
+        table = INFO[CAT_OF[i]]
+        if side.monkey_kex is None and not (view[i] in table or
+                                            (i == 1 and view[i].endswith(CERT) and view[i][:-len(CERT)] in table)):
+            sig = "refused-name-agreed:" if view[i] in side.refused_names(CAT_OF[i]) else "name-outside-table-agreed:"
+            ctx.fail(sig + CAT_OF[i], case, "%s agreed on %r which is not in its %s table" % (role, view[i], CAT_OF[i]))
     for i in range(8):
         for n in own_lists[i]:
             # (a marker pseudo-algorithm is not an algorithm: strict_kex / ext-info are not governed by disabled_algorithms)
@@ -436,6 +488,50 @@ def run(ctx):
     kex_names = {cls: name for name, cls in T._kex_info.items()}
     info = {"kex": list(T._kex_info), "keys": list(T._key_info), "ciphers": list(T._cipher_info),
             "macs": list(T._mac_info), "compression": list(T._compression_info)}
+    INFO.clear()
+    INFO.update(info)
+
+    # ------------------------------------------------------------------ SecurityOptions assignments (accepted and refused)
+    n_set = 4000 if ctx.thorough else 400
+    set_cases, set_reqs = [], []
+    for i in range(n_set):
+        side = gen_side(rng, T, rng.random() < 0.5, hostkeys)
+        side.monkey_kex, side.refused = None, []
+        c = CATS[i % 5]
+        x = rand_subset(rng, info[c], rng.choice([0.2, 0.6, 1.0]))
+        rng.shuffle(x)
+        if i % 2:
+            for _ in range(rng.choice([1, 1, 2])):
+                x.insert(rng.randrange(len(x) + 1), rng.choice(UNKNOWN + MARKERS + REFUSED_POOL))
+        set_cases.append((side, c, x))
+        set_reqs.append("set %s %s %s" % (side.tokens(T), c, cfg_tok(x)))
+    model_set = ctx.driver("C05", set_reqs)
+    for i, (side, c, x) in enumerate(set_cases):
+        t = build_real(paramiko, side, hostkeys)
+        before = {cc: list(getattr(t, PREF_ATTR[cc])) for cc in CATS}
+        case = {"side": side.describe(), "category": c, "assigned": x}
+        try:
+            setattr(t.get_security_options(), SETTER[c], tuple(x))
+            raised = False
+        except ValueError:
+            raised = True
+        except Exception as e:
+            ctx.fail("setter-raises:" + exc_site(e), case, repr(e))
+            continue
+        after = {cc: list(getattr(t, PREF_ATTR[cc])) for cc in CATS}
+        impl = ("raised " if raised else "ok ") + " ".join(cfg_tok(after[cc]) for cc in CATS)
+        ctx.case(("set", c, repr(x), repr(before)), True)
+        ctx.dist("setter:%s:%s" % (c, "refused" if raised else "accepted"))
+        if model_set is not None and model_set[i] != impl:
+            ctx.disagree("SecurityOptions.%s = ..." % SETTER[c], case, model_set[i], impl)
+        bad = [n for n in x if n not in info[c]]
+        if raised != bool(bad):
+            ctx.fail("setter-validation:" + c, case, "raised=%r but names outside the table: %r" % (raised, bad))
+        if raised and after != before:
+            ctx.fail("setter-half-updated:" + c, case,
+                     "ValueError was raised but the transport changed: %r -> %r" % (before[c], after[c]))
+        if not raised and (after[c] != x or any(after[cc] != before[cc] for cc in CATS if cc != c)):
+            ctx.fail("setter-wrong-state:" + c, case, "after an accepted assignment: %r" % (after,))
 
     n_pairs = 30000 if ctx.thorough else 1500
     n_arb = 30000 if ctx.thorough else 1500
@@ -453,6 +549,11 @@ def run(ctx):
             c.pref["kex"] = (gex + rest) if i % 3 else rest[:2] + gex + rest[2:]
             if i % 5 == 0:
                 s.dis["kex"] = rest[: i % 7]
+        elif i % 10 == 0 and c.monkey_kex is None and s.monkey_kex is None:
+            # both peers tried the same optional algorithm first and were refused: it must stay out of the negotiation
+            cat, bogus = CATS[(i // 10) % 5], rng.choice(REFUSED_POOL)
+            c.add_refused(rng, T, cat, bogus)
+            s.add_refused(rng, T, cat, bogus)
         pairs.append((c, s))
     arb = []
     for i in range(n_arb):
@@ -472,20 +573,31 @@ def run(ctx):
             if j == 0 or rng.random() < 0.1:  # markers: always possible in kex, sometimes (meaningless) elsewhere
                 for _ in range(rng.choice([0, 1, 1, 2, 3])):
                     l.insert(rng.randrange(len(l) + 1), rng.choice(MARKERS))
+            # a peer that offers exactly the name this side tried and was refused
+            for n in sorted(side.refused_names(CAT_OF[j])):
+                if rng.random() < 0.7:
+                    l.insert(0 if rng.random() < 0.7 else rng.randrange(len(l) + 1), n)
             lists.append(l)
         seqno = 0 if rng.random() < 0.8 else rng.randrange(1, 5)
         side.initial_done = rng.random() < 0.3
         side.agreed_strict = rng.random() < 0.15
         arb.append((side, lists, seqno))
 
+    def built(side):
+        t = build_real(paramiko, side, hostkeys)
+        for cat, x in t._pv_refusal_missing:
+            ctx.fail("setter-validation:" + cat, {"side": side.describe(), "assigned": x},
+                     "an assignment holding a name outside the table did not raise ValueError")
+        return t
+
     reals, send_reqs = [], []
     for c, s in pairs:
-        tc, ts = build_real(paramiko, c, hostkeys), build_real(paramiko, s, hostkeys)
+        tc, ts = built(c), built(s)
         reals.append((tc, ts))
         send_reqs += ["send " + c.tokens(T), "send " + s.tokens(T)]
     arb_reals = []
     for side, lists, seqno in arb:
-        t = build_real(paramiko, side, hostkeys)
+        t = built(side)
         t.initial_kex_done = side.initial_done
         t.agreed_on_strict_kex = side.agreed_strict
         arb_reals.append(t)
@@ -706,9 +818,15 @@ META = {
               "compute the same tuple or both fail (peers_agree); the advertised lists are the accepted lists incl. a "
               "moduli-less server (advertised_eq_accepted, send_idempotent); with no well-formedness assumption at all: "
               "no agreed or advertised name is locally disabled (cert variants included), the agreed kex is never a "
-              "marker and is a name the peer listed. Tables/preference tuples are regenerated from transport.py each run. "
+              "marker and is a name the peer listed. All five SecurityOptions setters are modelled incl. the RAISING "
+              "assignment (state after a refused assignment = state before; setPref_raise/ok/wf) and the invariant is "
+              "proved for every history of assignments (wf_after_setters), hence only table names are ever advertised or "
+              "agreed, never a refused name (agreed_in_tables, advertised_in_tables). "
+              "Tables/preference tuples are regenerated from transport.py each run. "
               "Tied by differential runs of the real _send_kex_init/_parse_kex_init (both roles, two rounds, plus "
-              "hand-built hostile KEXINITs). Two defects found and fixed (857cd48, 6da136d)."),
+              "hand-built hostile KEXINITs, peers that offer exactly the name the local side was refused), of every "
+              "SecurityOptions setter with accepted and refused tuples, and real handshakes with random "
+              "configurations. Two defects found and fixed (857cd48, 6da136d)."),
     "note": ("Trusted: Lean kernel + 3 standard axioms; the harness (generators, own KEXINIT parser, first-common oracle); "
              "Message.add_list/get_list = joinComma/splitComma (C39); UTF-8 decoding of names. The strict-kex sequence "
              "check inside _parse_kex_init is modelled and compared but is C09's subject (theorems assume seqno = 0 or "
